@@ -628,8 +628,9 @@ def feature_hist(ck: Ck, spec: dict) -> bool:
 
 
 def search(ck: Ck) -> None:
-    # quick: 450 maps; quick with a broken tie: 3000 (about 90 s); thorough: 7500
-    n = 7500 if ck.thorough else ck.budget(450, 3000)
+    # quick: 360 maps (450 until round 3; lowered to keep the quick tier below 90 s on a loaded machine now that the proof side has
+    # 100 more obligations); quick with a broken tie: 3000; thorough: 7500
+    n = 7500 if ck.thorough else ck.budget(360, 3000)
     found: dict[str, tuple[dict, str, dict]] = {}
     # Shrinking budget, counted in oracle evaluations (not wall time, so that results are reproducible): per violation key
     # and in total.  A fault in a hot path produces dozens of keys on big maps; the total keeps a failing run within minutes.
